@@ -3,7 +3,7 @@ from .. import core, ref, vals, pts
 from ..core import hx, lst, WILD
 from ..ref import P, L, D, to32, le
 
-REQUIRED = ['dump', 'probe:table16', 'probe:oddmult', 'probe:order', 'public-consts']
+REQUIRED = ['dump', 'probe:table16', 'probe:oddmult', 'probe:order', 'public-consts', 'ff-consts']
 
 
 def nominal(bits32):
@@ -310,6 +310,10 @@ def task(prop, seed, size, cfgbins):
                 ck.check_vec(toks, 'ifma')
                 return '; '.join(ck.errors[n:n + 5]) if len(ck.errors) > n else None
             ctx.add('vec.ifma.consts', expect=v2_expect, cls='dump-ifma', info='repr')
+        # the public ff::PrimeField constants of Scalar, against their defining relations (g generates, ROOT_OF_UNITY =
+        # g^((l-1)/2^S) exactly, its inverse, DELTA = g^(2^S), TWO_INV, MODULUS, NUM_BITS, CAPACITY)
+        from .c17 import consts_expect
+        ctx.add('gp.consts', expect=consts_expect, cls='ff-consts')
         probes(ctx, tables)
         r = core.run_and_judge(prop, ctx, [(label, path, frc)], compare=False)
         r.setdefault('extra', {})['constants_checked_' + label] = len(ck.seen)
